@@ -488,6 +488,13 @@ theorem backward_calls_accumulate (dJ : DJ ℝ) (hdJ : DJShape dJ) (eps : ℝ) (
       = pairSum tan (backprop dJ eps env p (DVec.add c1 c2)) :=
   backprop_accumulates dJ hdJ eps lt env tan hE p ty c1 c2 hty h1 h2
 
+/-- the order in which several backward calls (of any programs, on any graphs) deposit their contributions is irrelevant
+for what `.grad` pairs to: interleaving calls of different types / batch sizes in another order cannot change a gradient
+(hardening pass 2, kind 17, as far as it is a statement about the model: there is no state to leak) -/
+theorem backward_calls_commute (tan : List (DVec ℝ)) (a b : List (Nat × DVec ℝ)) :
+    pairSum tan (a ++ b) = pairSum tan (b ++ a) := by
+  rw [pairSum_append, pairSum_append, add_comm]
+
 /-- aliasing = sharing, forward: a program whose argument positions are fed through a renaming `f` of the caller's tensors
 (e.g. `X @ X`: both positions ↦ the same tensor) evaluates like distinct tensors holding the same data -/
 theorem aliased_arguments_eval (eps : ℝ) (n : Nat) (f : Nat → Nat) (env : List (DVec ℝ)) (p : Prog) (h : p.leavesBelow n) :
